@@ -171,6 +171,20 @@ def make_cases(ctx):
                         role, sid, ver[0], ver[1], group, feat, rep), dict(
                         role=role, sid=sid, ver=ver, key="rsa", group=group,
                         feat=feat)
+    # overlapping version ranges, default suites
+    for role in ("tl_client", "tl_server"):
+        for tmin in VERS:
+            for tmax in VERS:
+                for omin in VERS:
+                    for omax in VERS:
+                        if tmin > tmax or omin > omax or \
+                                max(tmin, omin) > min(tmax, omax):
+                            continue
+                        if (tmin, tmax) == (omin, omax) and tmin == tmax:
+                            continue     # the pinned cells above
+                        yield "range-%s-%d%d-%d%d" % (
+                            role, tmin[1], tmax[1], omin[1], omax[1]), dict(
+                            role=role, range=[tmin, tmax, omin, omax])
     # negatives
     for role in ("tl_client", "tl_server"):
         for j in range(ctx.pick(8, 60)):
@@ -217,6 +231,8 @@ def ossl_read_all(o, want, tl_conn=None, rounds=100000):
 def run_case(ctx, cid, P):
     if P.get("neg"):
         return run_negative(ctx, cid, P)
+    if P.get("range"):
+        return run_range(ctx, cid, P)
     rng = ctx.rng
     sid, ver, role, feat = P["sid"], tuple(P["ver"]), P["role"], P["feat"]
     su = suites.TABLE[sid]
@@ -480,6 +496,68 @@ def run_case(ctx, cid, P):
         ctx.sample({"case": cid, "role": role, "suite": su.name,
                     "ver": pair.VNAME[ver], "key": k, "group": group,
                     "feature": feat, "sizes": sizes})
+
+
+def run_range(ctx, cid, P):
+    """both sides configured with version *ranges* (default suites): the
+    handshake must complete at the highest common version"""
+    role = P["role"]
+    tmin, tmax, omin, omax = (tuple(x) for x in P["range"])
+    want = min(tmax, omax)
+    ts_ = pair.settings(minVersion=tmin, maxVersion=tmax)
+    link = net.Link()
+    key = {"role": role, "feat": "version_range",
+           "tl": "%s-%s" % (pair.VNAME[tmin], pair.VNAME[tmax]),
+           "ossl": "%s-%s" % (pair.VNAME[omin], pair.VNAME[omax])}
+    W = {"case": cid}
+    if role == "tl_client":
+        sock = net.MemSock(link, "client")
+        conn = TLSConnection(sock)
+        octx = osslpeer.context(True, omin, omax, cert=KEYS["rsa"][0],
+                                key=KEYS["rsa"][1])
+        o = osslpeer.OsslEnd(link, "server", octx)
+        gen = conn.handshakeClientCert(settings=ts_, async_=True)
+    else:
+        sock = net.MemSock(link, "server")
+        conn = TLSConnection(sock)
+        octx = osslpeer.context(False, omin, omax)
+        o = osslpeer.OsslEnd(link, "client", octx)
+        chain, pk = creds.server("rsa")
+        gen = conn.handshakeServerAsync(certChain=chain, privateKey=pk,
+                                        settings=ts_)
+    t = drive.Task("tl", gen, sock)
+    try:
+        drive_both(t, o, link)
+    except Exception as e:   # noqa
+        ctx.inconc("harness exception driving %s: %r" % (cid, e))
+        return
+    ctx.ev()
+    ctx.count("range_handshakes")
+    W["tl"] = (t.status, repr(t.exc))
+    W["ossl"] = (o.hs_done, repr(o.error))
+    if t.status != "done" or not o.hs_done:
+        ctx.violation(dict(key, clause="mutual_cell_failed",
+                           tl=str(outcome(t)),
+                           ossl=type(o.error).__name__ if o.error else "no"),
+                      W, "overlapping version ranges, handshake failed: "
+                      "%r / %r" % (t.exc, o.error))
+        return
+    if tuple(conn.version) != want or o.version() != want:
+        ctx.violation(dict(key, clause="version_disagree"), W,
+                      "expected %s, tlslite %r openssl %r" % (
+                          want, conn.version, o.version()))
+    data = mon.keystream(cid, 300)
+    try:
+        o.write(data)
+        tr = drive.Task("r", drive.aread(conn, 300, 300), sock)
+        drive_both(tr, o, link)
+        if tr.status != "done" or bytes(tr.result) != data:
+            ctx.violation(dict(key, clause="data_o2t_corrupt"), W,
+                          "%r %r" % (tr.status, tr.exc))
+    except Exception as e:   # noqa
+        ctx.violation(dict(key, clause="data_o2t_corrupt"), W, repr(e))
+    ctx.cell("tuple", "%s|range|%s|%s|%s" % (role, key["tl"], key["ossl"],
+                                            pair.VNAME[want]))
 
 
 def run_negative(ctx, cid, P):
